@@ -24,7 +24,8 @@ RULE = ("per model: clean save under a recorder (patched open/file.write/flush/c
         "built model in a fresh directory; snapshot (id + sha256 of every initializer const_value incl. subgraphs, structural digest) "
         "compared after; success => ir.load(path) equal; uninitialized initializer => ValueError and zero fs events. Models "
         "stratified: inline-only / threshold 256 B / >1 MB (+padding) / two >1 MB / already-external (other file) / subgraph "
-        "initializers / verbose / exotic dtypes+tensor classes / uninitialized main, verbose, subgraph / torch tensors. "
+        "initializers / same initializer name in sibling scopes with different payloads / initializers only in If branches (main graph owns none) / "
+        "verbose / exotic dtypes+tensor classes / uninitialized main, verbose, subgraph / torch tensors / tied payloads / re-save of a loaded export. "
         "non-trivial = model with >=1 enumerated fault point or a checked refusal; distinct = stratum x tensor classes x path style")
 ASSUMPTIONS = [
     "file-system effects of the save go through Python-level open()/file methods/os.* (cross-checked against sys.addaudithook "
